@@ -88,7 +88,7 @@ func TestVerifC16Route(t *testing.T) {
 		Property: "C16", Unit: "route",
 		Rule: "a resource name, 1..6 tag values (null/str/int/binary, delimiter-biased), an entity = ordered non-empty subset of the tags, an optional " +
 			"sharding key, a shard count 1..64 (or 2^32-1) and replacement values for the non-key tags; oracle: shard < count; equal across repeated calls " +
-			"and independently constructed locators; unchanged when only non-key tags change; ApplyLocators uses the sharding key when present; " +
+			"and independently constructed locators; unchanged when only non-key tags change and when a rejected (truncated) element was located in between; ApplyLocators uses the sharding key when present; " +
 			"TraceShardID in range and stable; non-trivial = shard count > 1 and >= 2 key tags or a key value with a delimiter/escape byte",
 		Gen: func(t *rapid.T, _ *verifkit.KnownSet) c16Route {
 			n := rapid.IntRange(1, 6).Draw(t, "n")
@@ -137,6 +137,32 @@ func TestVerifC16Route(t *testing.T) {
 			if err != nil || s4 != s1 {
 				return verifkit.Failf("changing only non-entity tags moved the series from shard %d to %d (%v)", s1, s4, err)
 			}
+			// a rejected (malformed) element in between must not change where the next valid one goes: the shard is a function of
+			// the subject, the entity values and the shard count, not of what the locator saw before
+			maxIdx := 0
+			for _, i := range c.Entity {
+				maxIdx = max(maxIdx, i)
+			}
+			rejected := false
+			for _, cut := range []int{maxIdx, 0} {
+				if _, _, merr := l1.Locate(c.Subject, c.write(c.Tags[:cut]), c.ShardNum); merr != nil {
+					rejected = true
+				}
+				_, s5, err := l1.Locate(c.Subject, c.write(c.Tags), c.ShardNum)
+				if err != nil || s5 != s1 {
+					return verifkit.Failf("after a rejected element (only the first %d of %d tags sent) the same locator routes the series to shard %d, before to %d (%v)", cut, len(c.Tags), s5, s1, err)
+				}
+				if sk != nil {
+					skl := NewShardingKeyLocator(fams, sk)
+					_, w1, e1 := skl.Locate(c.Subject, c.write(c.Tags), c.ShardNum)
+					_, _, _ = skl.Locate(c.Subject, c.write(c.Tags[:cut]), c.ShardNum)
+					_, w2, e2 := skl.Locate(c.Subject, c.write(c.Tags), c.ShardNum)
+					if e1 != nil || e2 != nil || w1 != w2 {
+						return verifkit.Failf("after a rejected element the sharding-key locator routes the series to shard %d, before to %d (%v / %v)", w2, w1, e1, e2)
+					}
+				}
+			}
+			x.LabelIf(rejected, "rejected element before a valid one")
 			var skRouter Router
 			if sk != nil {
 				skl := NewShardingKeyLocator(fams, sk)
